@@ -64,6 +64,8 @@ func (i sID) sx() sx.V {
 		return sx.L(sx.A("compact"), sx.S(i.a), sx.S(i.b))
 	case "rel":
 		return sx.L(sx.A("rel"), sx.S(i.a))
+	case "vocab":
+		return sx.L(sx.A("vocab"), sx.S(i.a))
 	}
 	return sx.L(sx.A("abs"), sx.S(i.a))
 }
@@ -303,12 +305,24 @@ func serialise(r *rand.Rand, g Graph, plain bool) sDoc {
 	if useBase {
 		d.base = c05Base
 	}
+	// @vocab: predicates and classes of the vocabulary namespace may be written as bare terms
+	useVocab := useCtx && r.Intn(2) == 0
+	if useVocab {
+		d.ctx = append(d.ctx, [2]string{"@vocab", ExNS})
+		r.Shuffle(len(d.ctx), func(i, j int) { d.ctx[i], d.ctx[j] = d.ctx[j], d.ctx[i] })
+	}
 	mkID := func(iri string, node bool) sID {
 		if node && strings.HasPrefix(iri, DataNS+"blank") {
 			return sID{kind: "blank", a: iri}
 		}
 		if node && useBase && strings.HasPrefix(iri, c05Base) && r.Intn(2) == 0 {
 			return sID{kind: "rel", a: strings.TrimPrefix(iri, c05Base)}
+		}
+		if !node && useVocab && strings.HasPrefix(iri, ExNS) && r.Intn(2) == 0 {
+			local := strings.TrimPrefix(iri, ExNS)
+			if _, clash := prefixes[local]; !clash && !strings.ContainsAny(local, ":/#@") {
+				return sID{kind: "vocab", a: local}
+			}
 		}
 		cands := []string{}
 		for p, ns := range prefixes {
@@ -495,7 +509,21 @@ warning:
 info:
   - not-length
   - msg-multi
+  - named-data
+  - named-core
 validations:
+  named-data:
+    targetClass: ex.T
+    message: data
+    propertyConstraints:
+      ex.data:
+        minCount: 1
+  named-core:
+    targetClass: ex.doc
+    message: core
+    propertyConstraints:
+      ex.core:
+        maxCount: 0
   msg-multi:
     targetClass: ex.T
     message: "values {{ex.b}}"
@@ -557,8 +585,8 @@ validations:
 
 func C05(e *core.Env) {
 	res := e.Res
-	res.Rule = "cases = (abstract graph, serialisation): graphs of 2-7 nodes with cycles, shared and single-parent children, literals of three kinds, dangling links and several types; each is written k times (quick 5, thorough 14) with independent random choices on every axis the property lists: @context prefixes (several prefixes for one namespace) or absolute IRIs, @base-relative ids, nodes embedded in their (only) parent or listed flat, @graph wrapper / top-level array / single object, node order, key order, single value vs one-element array, @type as string vs array, repeated values, indentation; " +
-		"(a) the real ProcessInput index of each text must equal JsonLd.flatten of the document structure that was written, (b) the reports of a 7-validation profile (counts, sets, patterns, nested over sequence / alternative / inverse paths, @type, negation, messages with placeholders) must agree across the k texts in conforms and in the set of (severity, validation, focus, message); non-trivial = the graph yields at least one result; distinct by text"
+	res.Rule = "cases = (abstract graph, serialisation): graphs of 2-7 nodes with cycles, shared and single-parent children, literals of three kinds, dangling links and several types; each is written k times (quick 5, thorough 14) with independent random choices on every axis the property lists: @context prefixes (several prefixes for one namespace) or absolute IRIs, @vocab with bare terms for predicates and classes (some named like the built-in prefixes: data, core, doc), @base-relative ids, nodes embedded in their (only) parent or listed flat, @graph wrapper / top-level array / single object, node order, key order, single value vs one-element array, @type as string vs array, repeated values, indentation; " +
+		"(a) the real ProcessInput index of each text must equal JsonLd.flatten of the document structure that was written, (b) the reports of a 10-validation profile (counts, sets, patterns, nested over sequence / alternative / inverse paths, @type, negation, messages with placeholders) must agree across the k texts in conforms and in the set of (severity, validation, focus, message); non-trivial = the graph yields at least one result; distinct by text"
 	k := e.Pick(5, 14)
 	rc := config.DefaultReportConfiguration()
 	compiled, err := pkg.CompileProfile(c05Profile, false, nil)
@@ -621,6 +649,14 @@ func C05(e *core.Env) {
 		multiB := map[string]bool{}
 		for i := range g.Nodes {
 			g.Nodes[i].Props = append(g.Nodes[i].Props, GProp{Iri: ExNS + "single", Vals: []GVal{VS(fmt.Sprintf("only-%d", i))}})
+			// predicates and a class whose local names are also names of the built-in AMF prefixes (data, core, doc)
+			if (i+gi)%2 == 0 {
+				g.Nodes[i].Props = append(g.Nodes[i].Props, GProp{Iri: ExNS + "data", Vals: []GVal{VS(fmt.Sprintf("d-%d", i))}})
+			}
+			if (i+gi)%3 == 0 && !strings.HasPrefix(g.Nodes[i].ID, DataNS+"blank") { // (a node without @id has no stable name to report)
+				g.Nodes[i].Props = append(g.Nodes[i].Props, GProp{Iri: ExNS + "core", Vals: []GVal{VI(i)}})
+				g.Nodes[i].Types = append(g.Nodes[i].Types, ExNS+"doc")
+			}
 			for _, p := range g.Nodes[i].Props {
 				if p.Iri == ExNS+"b" && (len(p.Vals) > 1 || blanks > 0) {
 					multiB[g.Nodes[i].ID] = true
@@ -708,6 +744,9 @@ func C05(e *core.Env) {
 			}
 			if d.base != "" {
 				res.Count("with-base")
+			}
+			if strings.Contains(d.sx().String(), "(vocab ") {
+				res.Count("with-vocab-term")
 			}
 			if strings.Contains(d.sx().String(), "(embed ") {
 				res.Count("with-embedded-node")
